@@ -17,7 +17,7 @@ func TestMain(m *testing.M) {
 
 func TestC14(t *testing.T) {
 	core.Quiet()
-	if os.Getenv("VERIF_REPLAY") == "" {
+	if os.Getenv("VERIF_REPLAY") == "" && core.FirstShard() {
 		// the whole matrix type x relation x depth (v6) and siaddr x option 54 (v4) for fixed arguments
 		c := core.For("C14")
 		n := int64(0)
